@@ -3,7 +3,8 @@
    edge (x, y, axis)).  Segment i of a cell is  l[0] = points[table[2i+1]], l[1] = points[table[2i]].
    deg l v = number of segment end points equal to v. *)
 From Coq Require Import List ZArith NArith Lia Bool.
-From Sdfx Require Import Generated.MarchTables Render.Balance.
+From Sdfx Require Import Generated.MarchTables.
+From Sdfx Require Import Render.Balance.
 Import ListNotations.
 Open Scope Z_scope.
 
